@@ -11,7 +11,7 @@ if ! git -C $WT apply "$SEED/patch.diff" 2>/dev/null; then
 fi
 ( cd $WT && /venv/bin/python -W ignore demo.py >/dev/null 2>&1 ); echo "demo on seeded tree: exit=$?"
 ( cd $WT && /venv/bin/python -m pytest -q -p no:cacheprovider -x 2>&1 | tail -1 )
-git -C $WT diff > /var/tmp/vf-seed-$$.diff
+git -C $WT diff HEAD -- musicxml > /var/tmp/vf-seed-$$.diff
 git -C /repo worktree remove --force $WT
 git -C /repo apply /var/tmp/vf-seed-$$.diff || { echo "cannot apply to /repo"; exit 2; }
 for c in "$@"; do
